@@ -16,8 +16,8 @@
 (*   expunged  uids reported by untagged EXPUNGE                           *)
 (*   pairs     {<<source uid, new uid>>} of COPYUID; APPENDUID is <<0,u>>  *)
 (*   exists, uidnext   of SELECT                                           *)
-(*   choice    how a point of RFC latitude was resolved at this step ({}   *)
-(*             when there was none)                                        *)
+(*   choice    how points of RFC latitude were resolved at this step:      *)
+(*             {<<point, resolution>>}, {} when there was none             *)
 (*                                                                         *)
 (* Points where RFC 3501 leaves latitude, and how they are modelled:       *)
 (*  L1 a message SEQUENCE number greater than the number of messages       *)
